@@ -10,6 +10,7 @@ package main
 // Applications: graceful ApplicationStop / node stop return only when every process under them is gone.
 
 import (
+	"encoding/json"
 	"errors"
 	"fmt"
 	"sort"
@@ -122,6 +123,9 @@ type c10leaf struct {
 }
 
 func (a *c10leaf) Init(args ...any) error {
+	if a.spec.Kind == "failleaf" {
+		return errors.New("init-fails")
+	}
 	a.l.add(c10event{kind: "spawn", pid: a.PID(), parent: a.Parent(), what: a.spec.Kind})
 	if a.spec.Kind == "parent" {
 		for _, ch := range a.spec.Children {
@@ -267,6 +271,7 @@ func c10settle(k *K4, l *c10log) bool {
 
 func runC10(c *Ctx) {
 	r := c.R
+	defer c10failedStart(c)
 	r.Rule = "fault enumeration on random ownership trees (depth ≤ 3; supervisors of three types × three strategies × KeepOrder, pools, plain parents): 1-3 faults {Kill, exit signal, behaviour crash} on random live processes, spaced 0 / 50 µs / 1 ms apart (start-up, restart and shutdown windows), optional take-down of the root; " +
 		"after quiescence orphan oracle + replay of the causally ordered spawn/termination log through Model/Tree; application graceful stop; non-trivial = tree with ≥ 2 levels and a fault on an inner process; distinct by tree+faults"
 	k, err := NewK4("c10n")
@@ -708,5 +713,88 @@ func c10apps(c *Ctx, k *K4) {
 		_ = descendants
 		k.Node.ApplicationStopForce(app.name)
 		k.Node.ApplicationUnload(app.name)
+	}
+}
+
+// c10failedStart: the fault point "during start-up". Somewhere inside a random tree the start of a child fails (its
+// Init returns an error) after earlier siblings — whole subtrees — have been started. The owner's own start then
+// fails, and so does every start above it, up to the root: node.Spawn returns the error. Nothing that was started on
+// the way may keep running.
+func c10failedStart(c *Ctx) {
+	r := c.R
+	k, err := NewK4("c10f")
+	if err != nil {
+		r.Disagree("c10.node", err.Error(), nil)
+		return
+	}
+	defer k.Stop()
+	n := c.N(60, 2000)
+	for it := 0; it < n; it++ {
+		l := &c10log{}
+		var spec *c10spec
+		var inner []*c10spec
+		for try := 0; try < 20 && len(inner) == 0; try++ {
+			spec = genC10Spec(c.Rng, 3)
+			var walk func(s *c10spec)
+			walk = func(s *c10spec) {
+				if (s.Kind == "sup" || s.Kind == "parent") && len(s.Children) > 0 {
+					inner = append(inner, s)
+				}
+				if s.Kind != "pool" {
+					for _, ch := range s.Children {
+						walk(ch)
+					}
+				}
+			}
+			walk(spec)
+		}
+		if len(inner) == 0 {
+			continue
+		}
+		at := inner[c.Rng.Intn(len(inner))]
+		pos := 1 + c.Rng.Intn(len(at.Children))
+		at.Children = append(at.Children[:pos:pos], append([]*c10spec{{Kind: "failleaf"}}, at.Children[pos:]...)...)
+		_, err := k.Node.Spawn(c10factory(l, spec), gen.ProcessOptions{})
+		if err == nil {
+			r.Count("failed-start.inconclusive-started")
+			continue
+		}
+		c10settle(k, l)
+		var started []gen.PID
+		for _, e := range l.snapshot() {
+			if e.kind == "spawn" {
+				started = append(started, e.pid)
+			}
+		}
+		// the exit signals are on their way: wait for the processes to go, the verdict is about what stays
+		waitUntil(5*time.Second, func() bool {
+			for _, p := range started {
+				if _, e := k.Node.ProcessInfo(p); e == nil {
+					return false
+				}
+			}
+			return true
+		})
+		left := 0
+		var first gen.PID
+		for _, p := range started {
+			if _, e := k.Node.ProcessInfo(p); e == nil {
+				if left == 0 {
+					first = p
+				}
+				left++
+			}
+		}
+		b, _ := json.Marshal(spec)
+		r.Case("failed-start/"+string(b), len(started) > 1)
+		r.Count("failed-start.trees")
+		r.CountN("failed-start.processes-started-before-the-failure", len(started))
+		if left > 0 {
+			r.Violation("C10/orphan-after-failed-start", fmt.Sprintf("the start of the tree failed (%v) after %d processes had been started; %d of them are still running 5 s later (first %s)", err, len(started), left, first),
+				map[string]interface{}{"tree": spec, "how": "node.Spawn of the root; the child marked failleaf returns an error from Init"})
+			for _, p := range started {
+				k.Node.Kill(p)
+			}
+		}
 	}
 }
